@@ -96,8 +96,12 @@ func parseCC(h http.Header) ccMap {
 			}
 			k, v, _ := strings.Cut(part, "=")
 			k = strings.ToLower(strings.TrimSpace(k))
+			// a directive given twice: the first occurrence counts (RFC 9111 §4.2.1) - except that no-cache without
+			// an argument, the stricter form, is not undone by a qualified one next to it
 			if _, dup := m[k]; !dup {
 				m[k] = unquote(strings.TrimSpace(v))
+			} else if k == "no-cache" && strings.TrimSpace(v) == "" {
+				m[k] = ""
 			}
 		}
 	}
